@@ -122,6 +122,20 @@ def main():
     for v, inv in (('StoreFirst', 'PureResults'), ('BaseKey', 'KeyInjective'), ('AliasProps', 'PureResults'),
                    ('CacheBeforeMember', 'PureResults'), ('StoreFirstFault', 'PureResults'), ('ImportWindow', 'PureResults')):
         chk.mc('Runtime', 'MC_Runtime_' + v, workers=8, expect_violation=inv, label='hazard variant ' + v)
+    # ---- Apalache: PureResults as consequence of an INDUCTIVE invariant of the code model (2 threads, any number of calls);
+    # the hazard variant (code before fix 772c586) must make the inductive step fail.  Symbolic complement of the bounded
+    # TLC runs above; when apalache-mc cannot be run the stage is recorded as unavailable and nothing is claimed from it.
+    if not os.environ.get('VERIF_SKIP_MC'):
+        apa = []
+        for mod_, init_, inv_, len_, want in (('MC_Runtime_apa', 'Init', 'IndInv', 0, 'NoError'), ('MC_Runtime_apa', 'IndInv', 'IndInv', 1, 'NoError'),
+                                            ('MC_Runtime_apa', 'IndInv', 'PureResults', 0, 'NoError'), ('MC_Runtime_apa_neg', 'IndInv', 'IndInv', 1, 'Error')):
+            got, _txt = tlc.apalache(mod_, init_, inv_, len_, chk.work)
+            apa.append({'module': mod_, 'init': init_, 'inv': inv_, 'length': len_, 'expected': want, 'outcome': got})
+            if not got.startswith('unavailable') and got != want:
+                raise run.MachineryError('Apalache: %s --init=%s --inv=%s --length=%d gave %s, expected %s' % (mod_, init_, inv_, len_, got, want))
+        chk.cov['stages'].append({'stage': 'APALACHE', 'spec': 'Runtime', 'cfg': 'MC_Runtime_apa', 'label': 'inductive invariant IndInv => PureResults, unbounded calls', 'runs': apa})
+        if any(a['outcome'].startswith('unavailable') for a in apa):
+            chk.notes.append('Apalache stage unavailable: ' + '; '.join(a['outcome'] for a in apa if a['outcome'].startswith('unavailable'))[:300])
     # ---- GEN histories
     nh = 120 if quick else 2500
     rg = tlc.run('Gen_History', workdir=chk.work, workers=1, simulate='num=%d' % nh, depth=9, seed=chk.seed)
